@@ -120,6 +120,16 @@ def check_layout(res, L, rng, tag, kmax, names_unique=True):
         if int(A[L._basis_blade(idx)]) != int(A.value[idx]):
             res.violate('M[blade] does not read the blade coefficient', dict(site, idx=idx, M=A.value.tolist()), int(A[L._basis_blade(idx)]),
                         int(A.value[idx]), dict(site, op='getblade'))
+    # M[key blade] for any single-element key: the weight and sign of the key do not matter (-e12, e2*e1, 3*e12, ~e12 ...)
+    for idx in (range(N) if N <= 16 else rng.choice(N, 8, replace=False)):
+        idx = int(idx)
+        for w in (-1, 3, -2):
+            key = w * L._basis_blade(idx)
+            res.case(('getblade-weighted', tag, idx, w, A.value.tolist()), nontrivial=idx != 0)
+            res.count('getblade_weighted')
+            if int(A[key]) != int(A.value[idx]):
+                res.violate('M[blade] does not read the blade coefficient when the key blade has a negative or non-unit weight', dict(site, idx=idx, weight=w, M=A.value.tolist()),
+                            int(A[key]), int(A.value[idx]), dict(site, op='getblade-weighted'))
     # errors
     if n >= 1:
         res.case(('errors', tag))
